@@ -1,5 +1,5 @@
-(* PathApi.v — the accessors of Path (src/*/node/algo/path.rs), as coded: len = edges + 1; first_node / last_node are
-   the TARGETS of the first / last edge; iter_nodes walks positions (0: source of edge 0; p>0: target of edge p-1);
+(* PathApi.v — the accessors of Path (src/*/node/algo/path.rs): len = edges + 1; first_node is the SOURCE of the first edge
+   (the node the path starts at), last_node the TARGET of the last edge; iter_nodes walks positions (0: source of edge 0; p>0: target of edge p-1);
    Index<usize> panics out of range.  Definitions only. *)
 From Gdsl.Model Require Export Base NodeOps Search.
 
@@ -12,7 +12,7 @@ Section PathApi.
   Definition p_len (p : list edge) : nat := S (length p).
   Definition p_first_edge (p : list edge) : option edge := hd_error p.
   Definition p_last_edge (p : list edge) : option edge := hd_error (rev p).
-  Definition p_first_node (p : list edge) : option nat := option_map (@edst E) (p_first_edge p).
+  Definition p_first_node (p : list edge) : option nat := option_map (@esrc E) (p_first_edge p).
   Definition p_last_node (p : list edge) : option nat := option_map (@edst E) (p_last_edge p).
   Definition p_index (p : list edge) (i : nat) : option edge := nth_error p i.   (* None = the indexing panic *)
   Definition p_to_vec_edges (p : list edge) : list edge := p.
